@@ -1,9 +1,10 @@
 (* C11 -- calls leave the descriptor table unchanged except for the returned fd.
-   [bal R [] p]: for ALL kernel answers, the operation p, started owning nothing,
+   [bal R [] p]: for ALL kernel answers (in which the kernel never hands out a descriptor
+   number the operation is holding), the operation p, started owning nothing,
    (a) never closes a descriptor it did not itself open -- so descriptors lent
    by the caller (root, handle, borrowed fds) stay open -- and (b) returns
    owning exactly what R says: the returned descriptor, or nothing. *)
-From PV Require Import FdBalance ProgTac FdBalProofs RootBal.
+From PV Require Import FdBalance ProgTac FdBalProofs RootBal OpathBal.
 From Coq Require Import Permutation.
 Open Scope N_scope.
 
@@ -49,14 +50,71 @@ Theorem C11_kernel_backend :
     res_ok fz cfg pfuel gh ps rs /\ resp_ok fz cfg pfuel gh ps rs.
 Proof. intros. split; [apply kernel_res_ok|apply kernel_resp_ok]; assumption. Qed.
 
+(* ... and so does the emulated (O_PATH) backend, the Rc<OwnedFd> reference counting of
+   its walk state and of its symlink stack included: the count the library keeps for a
+   descriptor is the number of roles holding it (root, current, one per stack entry), a
+   descriptor is closed exactly when its last holder lets go, and at the end only the
+   result's handle is left *)
+Theorem C11_emulated_backend :
+  forall fz cfg pfuel gh ps rs, rs_kernel rs = false ->
+    res_ok fz cfg pfuel gh ps rs /\ resp_ok fz cfg pfuel gh ps rs.
+Proof. intros. split; [apply emu_res_ok|apply emu_resp_ok]; assumption. Qed.
+
+(* hence every Root operation is balanced on every backend, no contract assumed *)
+Theorem C11_root_ops_all_backends :
+  forall fz cfg pfuel gh ps rs root path path2 ty flags mode isdir rflags rfuel,
+      bal (Rfd []) [] (r_open fz cfg pfuel gh ps rs root path flags) /\
+      bal (Rsame []) [] (root_readlink fz cfg pfuel gh ps rs root path) /\
+      bal (Rsame []) [] (root_create fz cfg pfuel gh ps rs root path ty) /\
+      bal (Rfd []) [] (root_create_file fz cfg pfuel gh ps rs root path flags mode) /\
+      bal (Rsame []) [] (root_remove_inode fz cfg pfuel gh ps rs root path isdir) /\
+      bal (Rsame []) [] (root_rename fz cfg pfuel gh ps rs root path path2 rflags) /\
+      bal (Rsame []) [] (root_remove_all fz cfg pfuel gh ps rfuel rs root path) /\
+      bal (Rfd []) [] (root_mkdir_all fz cfg pfuel gh ps rs root path mode).
+Proof.
+  intros. destruct (rs_kernel rs) eqn:Hk.
+  - destruct (C11_kernel_backend fz cfg pfuel gh ps rs Hk) as [H1 H2]. apply C11_root_ops; assumption.
+  - destruct (C11_emulated_backend fz cfg pfuel gh ps rs Hk) as [H1 H2]. apply C11_root_ops; assumption.
+Qed.
+
 (* what the judgement means on any trace the model accepts (T1 replays recorded
-   traces through run_trace): the descriptors opened and not closed inside the
-   trace are exactly R's, and no foreign descriptor was closed *)
+   traces through run_trace) and in which no returned descriptor number was one the
+   operation held (trace_fresh, evaluated on every recorded trace): the descriptors
+   opened and not closed inside the trace are exactly R's, and no foreign descriptor
+   was closed *)
 Theorem C11_sound_on_traces :
   forall A (R : A -> list Z -> Prop) (p : prog A) t a n,
-    bal R [] p -> run_trace p t 0 = RDone a n ->
+    bal R [] p -> run_trace p t 0 = RDone a n -> trace_fresh t [] = true ->
     exists o', trace_owned t [] [] = (o', []) /\ R a o'.
 Proof. intros. eapply bal_sound_on_traces; eassumption. Qed.
+
+(* read on the static kernel of theories/Static.v (whose answers are particular ones): any
+   balanced operation leaves every descriptor that was open before it bound to what it was
+   bound to, and afterwards nothing else is open than those and the returned descriptor *)
+From PV Require Static StaticBal.
+
+Theorem C11_static_table_after :
+  forall s rp (p : prog (result Z ekind)) t t' r,
+    bal (Rfd []) [] p -> Static.run s rp t p = Static.Done t' r ->
+    (forall x, StaticBal.indom t x -> Static.tfind t' x = Static.tfind t x) /\
+    (forall x, StaticBal.indom t' x -> StaticBal.indom t x \/ r = Ok x).
+Proof.
+  intros s rp p t t' r Hb Hrun.
+  destruct (StaticBal.bal_run s rp _ _ [] t t' r Hb Hrun (NoDup_nil _) ltac:(intros n [])) as (o' & HR & _ & _ & Hkeep & Honly).
+  hnf in HR. split.
+  - intros x Hx. apply Hkeep; [exact Hx|intros []].
+  - intros x Hx. destruct (Honly x Hx) as [[Hin _]|Hin]; [left; exact Hin|right].
+    apply (Permutation_in _ HR) in Hin. destruct r as [fd|e]; [destruct Hin as [E|[]]; subst; reflexivity|destruct Hin].
+Qed.
+
+(* e.g. the emulated resolver: its walk, however many descriptors it opens and closes on the
+   way and however its Rc handles are shared, leaves exactly one new descriptor or none *)
+Corollary C11_static_emulated_resolve :
+  forall s rp fz cfg pfuel gh ps root path nosym nf t t' r,
+    Static.run s rp t (opath_resolve_root fz cfg pfuel gh ps root path nosym nf) = Static.Done t' r ->
+    (forall x, StaticBal.indom t x -> Static.tfind t' x = Static.tfind t x) /\
+    (forall x, StaticBal.indom t' x -> StaticBal.indom t x \/ r = Ok x).
+Proof. intros. eapply C11_static_table_after; [apply opath_resolve_root_bal|eassumption]. Qed.
 
 Check C11_procfs :
   forall fz cfg fuel h base sub flags,
@@ -70,9 +128,22 @@ Check C11_constructors :
 Check C11_kernel_backend :
   forall fz cfg pfuel gh ps rs, rs_kernel rs = true ->
     res_ok fz cfg pfuel gh ps rs /\ resp_ok fz cfg pfuel gh ps rs.
+Check C11_emulated_backend :
+  forall fz cfg pfuel gh ps rs, rs_kernel rs = false ->
+    res_ok fz cfg pfuel gh ps rs /\ resp_ok fz cfg pfuel gh ps rs.
+Check C11_root_ops_all_backends :
+  forall fz cfg pfuel gh ps rs root path path2 ty flags mode isdir rflags rfuel,
+      bal (Rfd []) [] (r_open fz cfg pfuel gh ps rs root path flags) /\
+      bal (Rsame []) [] (root_readlink fz cfg pfuel gh ps rs root path) /\
+      bal (Rsame []) [] (root_create fz cfg pfuel gh ps rs root path ty) /\
+      bal (Rfd []) [] (root_create_file fz cfg pfuel gh ps rs root path flags mode) /\
+      bal (Rsame []) [] (root_remove_inode fz cfg pfuel gh ps rs root path isdir) /\
+      bal (Rsame []) [] (root_rename fz cfg pfuel gh ps rs root path path2 rflags) /\
+      bal (Rsame []) [] (root_remove_all fz cfg pfuel gh ps rfuel rs root path) /\
+      bal (Rfd []) [] (root_mkdir_all fz cfg pfuel gh ps rs root path mode).
 Check C11_sound_on_traces :
   forall A (R : A -> list Z -> Prop) (p : prog A) t a n,
-    bal R [] p -> run_trace p t 0 = RDone a n ->
+    bal R [] p -> run_trace p t 0 = RDone a n -> trace_fresh t [] = true ->
     exists o', trace_owned t [] [] = (o', []) /\ R a o'.
 
 (* non-vacuity: the judgement rejects a leaking program and a foreign close *)
@@ -80,7 +151,7 @@ Example C11_rejects_leak :
   ~ bal (@Rsame unit []) [] (Call (Openat 3 (b "x") 0 0) (fun _ => Ret tt)).
 Proof.
   intro H. inversion H as [| c k o Hc Hk | |]; subst.
-  specialize (Hk (RFd 7)). cbn in Hk. inversion Hk as [a o Hr | | |]; subst.
+  specialize (Hk (RFd 7) ltac:(intros n _ Hin; exact Hin)). cbn in Hk. inversion Hk as [a o Hr | | |]; subst.
   hnf in Hr. apply Permutation_length in Hr. discriminate.
 Qed.
 Example C11_rejects_foreign_close :
@@ -94,4 +165,8 @@ Print Assumptions C11_reopen.
 Print Assumptions C11_constructors.
 Print Assumptions C11_root_ops.
 Print Assumptions C11_kernel_backend.
+Print Assumptions C11_emulated_backend.
+Print Assumptions C11_root_ops_all_backends.
+Print Assumptions C11_static_table_after.
+Print Assumptions C11_static_emulated_resolve.
 Print Assumptions C11_sound_on_traces.
